@@ -21,6 +21,20 @@ fn hostile_set(rng: &mut Rng) -> Vec<Coor4D> {
     let n = rng.below(4);
     (0..n)
         .map(|_| {
+            if rng.chance(0.25) {
+                // on and around the borders and half-cell margins of the shipped test grids
+                // (54-58 N, 8-16 E, one degree cells), as radians, degrees or cartesian metres
+                let lat = *rng.pick(&[53.5, 54.0, 58.0, 58.5, 56.0]) + rng.range(-0.6, 0.6) * if rng.chance(0.3) { 0.0 } else { 1.0 };
+                let lon = *rng.pick(&[7.5, 8.0, 16.0, 16.5, 12.0]) + rng.range(-0.6, 0.6) * if rng.chance(0.3) { 0.0 } else { 1.0 };
+                return match rng.below(3) {
+                    0 => Coor4D([lon.to_radians(), lat.to_radians(), 10.0, 2020.0]),
+                    1 => Coor4D([lat, lon, 10.0, 2020.0]),
+                    _ => {
+                        let c = Ellipsoid::default().cartesian(&Coor4D([lon.to_radians(), lat.to_radians(), 10.0, 0.0]));
+                        Coor4D([c[0], c[1], c[2], 2020.0])
+                    }
+                };
+            }
             Coor4D([
                 rng.hostile_f64(),
                 rng.hostile_f64(),
